@@ -61,6 +61,7 @@ type FuncCtx struct {
 	pcParts     map[string][]string
 	nclosure    int
 	heapInit    map[string]Term
+	loopEntry   []*Ev
 	heapSort    map[string]string
 	heapWritten map[string]bool
 	hdrOnce     sync.Once
